@@ -47,7 +47,9 @@ def run(ctx):
     ctx.coverage["rule"] = ("layered DAGs of 2-6 targets, 60% of them with an output check (`test -f ext/T.flag` or `cat` + expected_output), "
                             "the condition established by the target's own command or from outside; edits: destroy / establish / spoil the "
                             "condition, add / remove checks, command exits non-zero / exceeds its 300ms timeout / stops writing an output, "
-                            "content and command changes; non-trivial = distinct history with >=2 builds, one executing and one with a hit")
+                            "content and command changes; 1-3 checks per target mixing exit-status-only and expected_output checks in every order; outputs "
+                            "missing first / middle / last incl. dir:: outputs that were never created; scripted cycle condition destroyed -> failing run -> "
+                            "condition re-established from outside; non-trivial = distinct history with >=2 builds, one executing and one with a hit")
     recs = H.run_both(ctx, hists, "c14")
     if recs is None:
         return
@@ -67,15 +69,34 @@ def run(ctx):
                                   "executed": b["obs"]["executed"]}, **kw), signature=sig)
     for r in recs:
         h = r["hist"]
+        good = set()        # (label, state) pairs for which a successful execution has been observed in this history
         for b in H.walk(h, r["real"]):
             o, ws, s = b["obs"], b["ws"], b["step"]
             sel = H.selected(ws, s["patterns"])
             ex = set(o["executed"])
+            # "cached only if ...": a dependency-free target that is served from the cache must have been seen succeeding in
+            # exactly this state (command, input contents, outputs, fingerprint) earlier in the history
+            for l in sel:
+                t = ws["targets"][l]
+                if H.rdeps(ws, l) or t.get("nocache") or s.get("minimal") or not s.get("enable_cache", True):
+                    continue
+                st = H.state_key(ws, l)
+                post_ok = (t.get("beh", 0) == 0 and all(H.check_holds(c, o["fs"]) for c in t.get("checks", []))
+                           and all(o["fs"].get(H.out_path(t, op)) is not None for op in H.all_outs(t)))
+                if s.get("fail_fast") and not o["ok"]:
+                    continue
+                # (keep-going: a selected target without dependencies is always reached, so "not executed" means "served from the cache")
+                if l not in ex and (l, st) not in good:
+                    cnt["hits_judged"] = cnt.get("hits_judged", 0) + 1
+                    fail("a target was served from the cache in a state in which it never executed successfully (a result was cached "
+                         "although a postcondition failed)", h, b, "hit-without-successful-execution", target=l)
+                if l in ex and post_ok:
+                    good.add((l, st))
             if o["ok"]:
                 cnt["successful_builds_checked"] += 1
                 for l in sel:
                     t = ws["targets"][l]
-                    for op in t["outs"]:
+                    for op in H.all_outs(t):
                         if not s.get("minimal") and o["fs"].get(H.out_path(t, op)) is None:
                             fail("build succeeded but a declared output of a selected target does not exist", h, b, "success-with-missing-output",
                                  target=l, path=H.out_path(t, op))
